@@ -55,7 +55,7 @@ Hidden(s) ==
   \cup UNION {{t \in DoKBody(s, i) : t.exec = "ok"} \cup DoKClose(s, i) \cup DoKKill9(s, i) \cup DoKEnd(s, i)
               \cup (IF s.child # "running" THEN DoKTerm(s, i) \cup DoKInt(s, i) ELSE {})
               \cup DoTransBody(s, i) \cup DoTransCommit(s, i) \cup DoKillBodyBasic(s, i)
-              \cup DoNoopBody(s, i) \cup DoStartBody(s, i) \cup {t \in DoStopBody(s, i) : t.exec = "ok"} : i \in HIdx(s)}
+              \cup DoNoopBody(s, i) \cup DoStartBody(s, i) \cup {t \in DoStopBody(s, i) : t.exec = "ok"} \cup DoStopKill(s, i) : i \in HIdx(s)}
 RECURSIVE Clo(_, _)
 Clo(X, n) ==
   IF n = 0 THEN X
